@@ -413,12 +413,12 @@ func pureBinOp(x *ssa.BinOp, a, b string) (string, error) {
 		if k, ok := isConstInt(x.Y); ok && k < 64 {
 			return app("*", a, pow2Str(uint(k))), nil
 		}
-		return app("*", a, app("pow2", b)), nil
+		return app("go_shl", a, b), nil
 	case token.SHR:
 		if k, ok := isConstInt(x.Y); ok && k < 64 {
 			return app("div", a, pow2Str(uint(k))), nil
 		}
-		return app("div", a, app("pow2", b)), nil
+		return app("go_shr", a, b), nil
 	case token.AND:
 		if k, ok := isConstInt(x.Y); ok && k >= 0 && (k+1)&k == 0 {
 			return app("mod", a, num(k+1)), nil
